@@ -189,7 +189,8 @@ theorem wf_append (w : World) (hwf : w.WF) (ns : List (List SigVal)) (nr : List 
 
 def isViewOp : Op → Bool
   | .vLinear .. | .vLazy .. | .vZip .. | .vMulti .. | .vStandalone .. | .vSbt .. | .vLca .. | .vSbtLoad ..
-  | .vSqlite .. | .vLcaLoad .. | .vInsert .. | .vSelect .. | .vSelectPick .. | .vZipGroups .. => true
+  | .vSqlite .. | .vLcaLoad .. | .vInsert .. | .vSelect .. | .vSelectPick .. | .vZipGroups ..
+  | .vMultiOf .. | .vFrom .. | .vStandOf .. | .vMPath .. => true
   | _ => false
 
 /-- every other operation leaves views, rows and stores exactly as they were -/
@@ -265,22 +266,23 @@ theorem sigH_step (hsrc : SourceOk) (w : World) (hwf : w.WF) (op : Op) : (step w
     simp only [step]
     split
     · next vc hv =>
-      obtain ⟨c, _, hcell⟩ := Tab.cell_eq w.views v vc hv
       split
-      · split
-        · exact hwf.sigH
-        · next l hl =>
-          split
-          · next x hx =>
-            exact Tab.hwf_bind _ _ _ hwf.sigH (heldIds_valid w hwf vc l hl x (List.mem_of_getElem? hx))
-          · exact hwf.sigH
+      · exact hwf.sigH
       · split
         · split
           · exact hwf.sigH
-          · split
-            · exact Tab.hwf_alloc _ _ _ hwf.sigH
+          · next l hl =>
+            split
+            · next x hx =>
+              exact Tab.hwf_bind _ _ _ hwf.sigH (heldIds_valid w hwf vc l hl x (List.mem_of_getElem? hx))
             · exact hwf.sigH
-        · exact hwf.sigH
+        · split
+          · split
+            · exact hwf.sigH
+            · split
+              · exact Tab.hwf_alloc _ _ _ hwf.sigH
+              · exact hwf.sigH
+          · exact hwf.sigH
     · exact hwf.sigH
   · have hs := step_sigs_shape hsrc w op
     generalize (step w op).1.sigs = t' at hs
@@ -335,7 +337,8 @@ theorem mem_rowIdsFrom (start n x : Nat) (h : x ∈ rowIdsFrom start n) : x < st
   obtain ⟨a, ha, rfl⟩ := h
   omega
 
-theorem mem_diskRows (st : Nat) (vs : List SigVal) (k : Bool) (row : Row) (h : row ∈ diskRows st vs k) :
+theorem mem_diskRows (st : Nat) (vs : List SigVal) (k : Bool) (f : Nat → SigVal → Loc) (row : Row)
+    (h : row ∈ diskRows st vs k f) :
     row.sig = none ∧ ∃ i, row.loc = some (st, i) := by
   simp only [diskRows, List.mem_filterMap] at h
   obtain ⟨i, _, hi⟩ := h
@@ -384,6 +387,114 @@ theorem lens_le_succ_view (w : World) :
     w.lens.le ⟨w.sigs.cells.length, w.views.cells.length + 1, w.rows.length, w.stores.length⟩ :=
   ⟨Nat.le_refl _, Nat.le_succ _, Nat.le_refl _, Nat.le_refl _⟩
 
+/-- the cells `signatures()` hands out of a well-formed view exist -/
+theorem members_valid (w : World) (hwf : w.WF) (vc : ViewCell) (ms : List (Sum Nat SigVal))
+    (h : members w vc = .ok ms) : ∀ c, Sum.inl c ∈ ms → c < w.sigs.cells.length := by
+  unfold members at h
+  cases hk : vc.kind <;> simp only [hk] at h
+  case linear =>
+    injection h with h; subst h
+    intro c hc
+    simp only [List.mem_append, List.mem_map] at hc
+    rcases hc with ⟨x, _, hx⟩ | ⟨x, hx, e⟩
+    · cases hx
+    · injection e with e; subst e
+      have := (List.mem_filter.mp hx).2
+      cases hcc : w.sigs.cells[x]? with
+      | none => simp [hcc] at this
+      | some cell => exact lt_of_getElem? _ _ _ hcc
+  case lazy =>
+    cases hh : heldIds w vc with
+    | none => simp [hh] at h
+    | some l =>
+      simp only [hh] at h
+      injection h with h; subst h
+      intro c hc
+      simp only [List.mem_map] at hc
+      obtain ⟨x, hx, e⟩ := hc
+      injection e with e; subst e
+      exact heldIds_valid w hwf vc l hh x hx
+  case multi =>
+    injection h with h; subst h
+    intro c hc
+    simp only [List.mem_filterMap] at hc
+    obtain ⟨r, _, hr⟩ := hc
+    cases hrow : w.rows[r]? with
+    | none => simp [hrow] at hr
+    | some row =>
+      simp only [hrow] at hr
+      cases hsg : row.sig with
+      | none =>
+        simp only [hsg] at hr
+        split at hr <;> simp at hr
+      | some c' =>
+        simp only [hsg] at hr
+        cases hcc : w.sigs.cells[c']? with
+        | none => simp [hcc] at hr
+        | some cell =>
+          simp [hcc] at hr
+          subst hr
+          exact lt_of_getElem? _ _ _ hcc
+  all_goals
+    cases hv : viewSigs w vc with
+    | error e => simp [hv, Except.map] at h
+    | ok l =>
+      simp only [hv, Except.map] at h
+      injection h with h; subst h
+      intro c hc
+      simp only [List.mem_map] at hc
+      obtain ⟨_, _, e⟩ := hc
+      cases e
+
+theorem memberRow_ok (w : World) (iloc : Loc) (m : Sum Nat SigVal) (row : Row) (h : memberRow w iloc m = some row) :
+    row.loc = none ∧ ∀ c, row.sig = some c → c < w.sigs.cells.length := by
+  cases m with
+  | inl c =>
+    simp only [memberRow] at h
+    cases hcc : w.sigs.cells[c]? with
+    | none => simp [hcc] at h
+    | some cell =>
+      simp [hcc] at h
+      subst h
+      exact ⟨rfl, by intro c' hc'; cases hc'; exact lt_of_getElem? _ _ _ hcc⟩
+  | inr v =>
+    simp only [memberRow, Option.some.injEq] at h
+    subst h
+    exact ⟨rfl, by intro c' hc'; cases hc'⟩
+
+theorem multiRows_ok (w : World) (l : List (ViewCell × Option String)) (rs : List Row)
+    (h : multiRows w l = .ok rs) :
+    ∀ row, row ∈ rs → row.loc = none ∧ ∀ c, row.sig = some c → c < w.sigs.cells.length := by
+  induction l generalizing rs with
+  | nil => simp [multiRows] at h; subst h; intro row hr; cases hr
+  | cons p l ih =>
+    obtain ⟨vc, lab⟩ := p
+    simp only [multiRows] at h
+    cases hm : members w vc with
+    | error e => simp [hm] at h
+    | ok ms =>
+      simp only [hm] at h
+      cases hr : multiRows w l with
+      | error e => simp [hr] at h
+      | ok rs' =>
+        simp only [hr] at h
+        injection h with h; subst h
+        intro row hrow
+        rcases List.mem_append.mp hrow with hrow | hrow
+        · simp only [List.mem_filterMap] at hrow
+          obtain ⟨m, _, hm'⟩ := hrow
+          exact memberRow_ok w _ m row hm'
+        · exact ih rs' hr row hrow
+
+theorem mem_anonRows (vs : List SigVal) (f : Nat → Loc) (row : Row) (h : row ∈ anonRows vs f) :
+    row.loc = none ∧ row.sig = none := by
+  simp only [anonRows, List.mem_map] at h
+  obtain ⟨p, _, rfl⟩ := h
+  exact ⟨rfl, rfl⟩
+
+theorem rowOk_of (L : Lens) (row : Row) (h1 : row.loc = none) (h2 : ∀ c, row.sig = some c → c < L.sig) : RowOkL L row :=
+  ⟨h2, by intro st i hl; rw [h1] at hl; cases hl⟩
+
 /-- the view-layer operations preserve well-formedness -/
 theorem wf_step_view (w : World) (hwf : w.WF) (op : Op) (h : isViewOp op = true) : (step w op).1.WF := by
   cases op <;> simp only [isViewOp] at h <;> first | cases h | skip
@@ -408,18 +519,16 @@ theorem wf_step_view (w : World) (hwf : w.WF) (op : Op) (h : isViewOp op = true)
       split
       · exact hwf
       · split
-        · have hw1 := wf_append w hwf [vs] (diskRows w.stores.length vs true) (by
-            intro row hrow
-            obtain ⟨h1, i, h2⟩ := mem_diskRows _ _ _ _ hrow
+        · refine wf_viewFresh _ (wf_append w hwf [vs] _ ?_) r _ ⟨by simp, by simp, ?_, ?_⟩
+          · intro row hrow
+            obtain ⟨h1, i, h2⟩ := mem_diskRows _ _ _ _ _ hrow
             exact ⟨(by intro c hc; rw [h1] at hc; cases hc),
-                   (by intro st j hl; rw [h2] at hl; cases hl; simp)⟩)
-          refine wf_viewFresh _ hw1 r _ ⟨by simp, by simp, ?_, ?_⟩
+                   (by intro st j hl; rw [h2] at hl; cases hl; simp)⟩
           · intro x hx
             have := mem_rowIdsFrom _ _ _ hx
             simpa using this
           · intro _; simp
-        · have hw1 := wf_appendStore w hwf [vs]
-          exact wf_viewFresh _ hw1 r _ ⟨by simp, by simp, by simp, by intro _; simp⟩
+        · exact wf_viewFresh _ (wf_appendStore w hwf [vs]) r _ ⟨by simp, by simp, by simp, by intro _; simp⟩
     · exact hwf
   case vZipGroups r m k ss =>
     simp only [step]; split
@@ -427,30 +536,27 @@ theorem wf_step_view (w : World) (hwf : w.WF) (op : Op) (h : isViewOp op = true)
       split
       · exact hwf
       · split
-        · have hw1 := wf_append w hwf [vs] (diskRows w.stores.length vs true) (by
-            intro row hrow
-            obtain ⟨h1, i, h2⟩ := mem_diskRows _ _ _ _ hrow
+        · refine wf_viewFresh _ (wf_append w hwf [vs] _ ?_) r _ ⟨by simp, by simp, ?_, ?_⟩
+          · intro row hrow
+            obtain ⟨h1, i, h2⟩ := mem_diskRows _ _ _ _ _ hrow
             exact ⟨(by intro c hc; rw [h1] at hc; cases hc),
-                   (by intro st j hl; rw [h2] at hl; cases hl; simp)⟩)
-          refine wf_viewFresh _ hw1 r _ ⟨by simp, by simp, ?_, ?_⟩
+                   (by intro st j hl; rw [h2] at hl; cases hl; simp)⟩
           · intro x hx
             have := mem_rowIdsFrom _ _ _ hx
             simpa using this
           · intro _; simp
-        · have hw1 := wf_appendStore w hwf [vs]
-          exact wf_viewFresh _ hw1 r _ ⟨by simp, by simp, by simp, by intro _; simp⟩
+        · exact wf_viewFresh _ (wf_appendStore w hwf [vs]) r _ ⟨by simp, by simp, by simp, by intro _; simp⟩
     · exact hwf
   case vStandalone r ss =>
     simp only [step]; split
     · next vs _ =>
       split
       · exact hwf
-      · have hw1 := wf_append w hwf [vs] (diskRows w.stores.length vs false) (by
-          intro row hrow
-          obtain ⟨h1, i, h2⟩ := mem_diskRows _ _ _ _ hrow
+      · refine wf_viewFresh _ (wf_append w hwf [vs] _ ?_) r _ ⟨by simp, by simp, ?_, ?_⟩
+        · intro row hrow
+          obtain ⟨h1, i, h2⟩ := mem_diskRows _ _ _ _ _ hrow
           exact ⟨(by intro c hc; rw [h1] at hc; cases hc),
-                 (by intro st j hl; rw [h2] at hl; cases hl; simp)⟩)
-        refine wf_viewFresh _ hw1 r _ ⟨by simp, by simp, ?_, ?_⟩
+                 (by intro st j hl; rw [h2] at hl; cases hl; simp)⟩
         · intro x hx
           have := mem_rowIdsFrom _ _ _ hx
           simpa using this
@@ -462,8 +568,8 @@ theorem wf_step_view (w : World) (hwf : w.WF) (op : Op) (h : isViewOp op = true)
       · exact hwf
       · refine wf_viewFresh _ (wf_appendRows w hwf _ ?_) r _ ⟨by simp, by simp, ?_, by simp [VKind.usesStore]⟩
         · intro row hrow
-          simp only [List.mem_filterMap] at hrow
-          obtain ⟨c, _, hc⟩ := hrow
+          simp only [List.mem_flatMap, List.mem_filterMap] at hrow
+          obtain ⟨p, _, c, _, hc⟩ := hrow
           cases hcc : w.sigs.cells[c]? with
           | none => simp [hcc] at hc
           | some sc =>
@@ -515,9 +621,96 @@ theorem wf_step_view (w : World) (hwf : w.WF) (op : Op) (h : isViewOp op = true)
       · split
         · exact hwf
         · split
-          · exact wf_viewFresh w hwf r _ ⟨by simp, by simp, by simp, by simp [VKind.usesStore]⟩
+          · exact wf_viewFresh _ (wf_appendStore w hwf _) r _ ⟨by simp, by simp, by simp, by simp [VKind.usesStore]⟩
           · exact wf_viewFresh _ (wf_appendStore w hwf _) r _ ⟨by simp, by simp, by simp, by intro _; simp⟩
     · exact hwf
+  case vMultiOf r pre ins =>
+    simp only [step]; split
+    · exact hwf
+    · split
+      · exact hwf
+      · split
+        · exact hwf
+        · next rs hrs =>
+          refine wf_viewFresh _ (wf_appendRows w hwf rs ?_) r _ ⟨by simp, by simp, ?_, by simp [VKind.usesStore]⟩
+          · intro row hrow
+            obtain ⟨h1, h2⟩ := multiRows_ok w _ rs hrs row hrow
+            exact rowOk_of _ row h1 h2
+          · intro x hx
+            have := mem_rowIdsFrom _ _ _ hx
+            simpa using this
+  case vMPath r mode v =>
+    simp only [step]; split
+    · exact hwf
+    · split
+      · exact hwf
+      · split
+        · exact hwf
+        · split
+          · exact hwf
+          · refine wf_viewFresh _ (wf_append w hwf [_] _ ?_) r _ ⟨by simp, by simp, ?_, by simp [VKind.usesStore]⟩
+            · intro row hrow
+              have hr : row.loc = none ∧ row.sig = none := by
+                split at hrow
+                · exact mem_anonRows _ _ row hrow
+                · split at hrow
+                  · exact mem_anonRows _ _ row hrow
+                  · rcases List.mem_append.mp hrow with h | h <;> exact mem_anonRows _ _ row h
+              exact rowOk_of _ row hr.1 (by intro c hc; rw [hr.2] at hc; cases hc)
+            · intro x hx
+              have := mem_rowIdsFrom _ _ _ hx
+              simpa using this
+  case vStandOf r v =>
+    simp only [step]; split
+    · exact hwf
+    · next vc hv =>
+      obtain ⟨c, hcid, hcell⟩ := Tab.cell_eq w.views v vc hv
+      obtain ⟨o1, o2, o3, o4⟩ := hwf.views c vc hcell
+      split
+      · exact hwf
+      · next hk =>
+        have hkind : vc.kind = .standalone := by
+          cases hkk : vc.kind <;> simp_all
+        refine wf_viewFresh _ (wf_append w hwf [[]] _ ?_) r _ ⟨by simp, by simp, ?_, ?_⟩
+        · intro row hrow
+          simp only [List.mem_filterMap] at hrow
+          obtain ⟨r0, _, hr0⟩ := hrow
+          cases hrow0 : w.rows[r0]? with
+          | none => simp [hrow0] at hr0
+          | some row0 =>
+            simp [hrow0] at hr0
+            subst hr0
+            obtain ⟨q1, q2⟩ := hwf.rows r0 row0 hrow0
+            exact ⟨fun c hc => q1 c hc, fun st i hl => Nat.lt_of_lt_of_le (q2 st i hl) (by simp [World.lens])⟩
+        · intro x hx
+          have := mem_rowIdsFrom _ _ _ hx
+          simpa using this
+        · intro _
+          have := o4 (by simp [hkind, VKind.usesStore])
+          simp only [World.lens] at this
+          simp; omega
+  case vFrom r kind v =>
+    simp only [step]; split
+    · exact hwf
+    · next vc hv =>
+      split
+      · exact hwf
+      · split
+        · exact hwf
+        · next ms hms =>
+          have hids : ∀ x, x ∈ ms.filterMap (fun m => match m with | .inl c => some c | .inr _ => none) →
+              x < w.sigs.cells.length := by
+            intro x hx
+            simp only [List.mem_filterMap] at hx
+            obtain ⟨m, hm, hmx⟩ := hx
+            cases m with
+            | inl c => simp at hmx; subst hmx; exact members_valid w hwf vc ms hms c hm
+            | inr y => simp at hmx
+          (repeat' split) <;>
+            first
+            | exact hwf
+            | exact wf_viewFresh w hwf r _ ⟨hids, by simp, by simp, by simp [VKind.usesStore]⟩
+            | exact wf_viewFresh w hwf r _ ⟨by simp, by simp, by simp, by simp [VKind.usesStore]⟩
   case vInsert v s =>
     simp only [step]; split
     · next c vc sc scell hcid hv hscid _ =>
@@ -744,7 +937,7 @@ theorem view_obs_stable' (hsrc : SourceOk) (w : World) (hwf : w.WF) (op : Op) (c
         rw [store_stable' hsrc w op st ((hwf.rows r row hrow).2 st i hl)]
   case multi =>
     simp only [viewSigs, hk]
-    congr 2
+    congr 1
     apply filterMap_congr'
     intro r hr
     rw [hrows r hr]
@@ -756,10 +949,62 @@ theorem view_obs_stable' (hsrc : SourceOk) (w : World) (hwf : w.WF) (op : Op) (c
       | none => rfl
       | some cs =>
         simp only
-        apply hsig cs
-        · simp only [deps, hk, List.mem_filterMap]
+        rw [hsig cs (by
+              simp only [deps, hk, List.mem_filterMap]
+              exact ⟨r, hr, by simp [hrow, hsg]⟩) ((hwf.rows r row hrow).1 cs hsg)]
+
+/-- … and so are the LOCATIONS it reports for them (`signatures_with_location()`, hence the locations of search results) -/
+theorem view_locs_stable' (hsrc : SourceOk) (w : World) (hwf : w.WF) (op : Op) (c : Nat) (vc : ViewCell)
+    (hc : w.views.cells[c]? = some vc)
+    (hv : ∀ v cv, viewReceiver op = some v → w.views.cid v = some cv → cv ≠ c ∧ (vc.kind = .lazy → cv ≠ vc.db))
+    (hs : ∀ s cs, sigReceiver op = some s → w.sigs.cid s = some cs → cs ∉ deps w vc) :
+    viewLocs (step w op).1 vc = viewLocs w vc := by
+  have hobs := (view_obs_stable' hsrc w hwf op c vc hc hv hs).2
+  obtain ⟨o1, o2, o3, o4⟩ := hwf.views c vc hc
+  have hrows : ∀ r, r ∈ vc.rows → (step w op).1.rows[r]? = w.rows[r]? :=
+    fun r hr => row_stable' hsrc w op r (o3 r hr)
+  cases hk : vc.kind <;> simp only [viewLocs, hk] <;> first | rw [hobs] | skip
+  case multi =>
+    congr 1
+    apply filterMap_congr'
+    intro r hr
+    rw [hrows r hr]
+    cases hrow : w.rows[r]? with
+    | none => rfl
+    | some row =>
+      simp only
+      cases hsg : row.sig with
+      | none => rfl
+      | some cs =>
+        simp only
+        have hsig : (step w op).1.sigs.cells[cs]? = w.sigs.cells[cs]? := by
+          apply sig_cell_stable hsrc w op cs ((hwf.rows r row hrow).1 cs hsg)
+          intro s hr' e
+          apply hs s cs hr' e
+          simp only [deps, hk, List.mem_filterMap]
           exact ⟨r, hr, by simp [hrow, hsg]⟩
-        · exact (hwf.rows r row hrow).1 cs hsg
+        rw [hsig]
+  case standalone =>
+    congr 1
+    apply filterMap_congr'
+    intro r hr
+    rw [hrows r hr]
+    cases hrow : w.rows[r]? with
+    | none => rfl
+    | some row =>
+      simp only
+      cases hl : row.loc with
+      | none => rfl
+      | some p =>
+        obtain ⟨st, i⟩ := p
+        simp only
+        rw [store_stable' hsrc w op st ((hwf.rows r row hrow).2 st i hl)]
+  case lazy =>
+    have hdb : (step w op).1.views.cells[vc.db]? = w.views.cells[vc.db]? := by
+      apply view_cell_stable hsrc w op vc.db (o2 hk)
+      intro v hr e
+      exact (hv v vc.db hr e).2 hk rfl
+    rw [hdb]
 
 theorem any_congr' {α : Type} (f g : α → Bool) (l : List α) (h : ∀ x, x ∈ l → f x = g x) : l.any f = l.any g := by
   induction l with
@@ -816,7 +1061,7 @@ theorem view_answers_stable' (hsrc : SourceOk) (w : World) (hwf : w.WF) (op : Op
     case lcasql => rw [hstore (by simp [hk, VKind.usesStore])]
   · intro hp
     unfold viewFind
-    rw [hp, hobs]
+    rw [hp, hobs, view_locs_stable' hsrc w hwf op c vc hc hv hs]
     by_cases hk : vc.kind = .sbt
     · rw [hcells (.inr hk)]
     · have : (vc.kind == VKind.sbt) = false := by
